@@ -2,6 +2,7 @@
 //! worker child processes evaluate JSON cases. See DESIGN.md section 2.3.
 
 pub mod known;
+pub mod fuzzstage;
 pub mod runner;
 pub mod worker;
 
@@ -153,6 +154,14 @@ pub trait Prop: Sync + Send {
     }
     fn max_shrink_iters(&self) -> u32 {
         600
+    }
+    /// libFuzzer target (engine/fuzz) that drives this property's decoder and oracle, if any.
+    fn fuzz_target(&self) -> Option<&'static str> {
+        None
+    }
+    /// Executions per libFuzzer job (16 jobs) in the thorough tier.
+    fn fuzz_runs(&self) -> u64 {
+        250_000
     }
 }
 
